@@ -268,7 +268,9 @@ func cmdCheck(args []string) int {
 			continue
 		}
 		if f, isKnown := knownObl[o.Name]; isKnown {
-			known = append(known, fmt.Sprintf("KNOWN-FINDING: property=%s %s", id, f.Text))
+			// a listed finding is not counted among the obligations claimed as proved
+			total--
+			known = append(known, "KNOWN-FINDING: "+f.Text)
 			continue
 		}
 		v := viol{Obligation: o.Name, Reason: o.Result, Detail: o.Detail, Pos: o.Pos, Solver: truncate(o.Model, 4000)}
